@@ -5,7 +5,7 @@
 (* A key tree is a function  key name -> node,  node being                   *)
 (*   [t |-> "val"] | [t |-> "null"] | [t |-> "group", c |-> tree];           *)
 (* absent keys are not in the domain.  Paths are sequences of key names.     *)
-EXTENDS Common
+EXTENDS Common, IOUtils
 
 Val   == [t |-> "val"]
 Null  == [t |-> "null"]
@@ -43,7 +43,9 @@ MismatchAt(d, t, path) ==
 RECURSIVE NullIn(_)
 NullIn(d) == \E k \in DOMAIN d : d[k].t = "null" \/ (IsGroup(d[k]) /\ NullIn(d[k].c))
 
-Warn(kind, l, p) == [kind |-> kind, locale |-> l, at |-> [ns |-> None, path |-> p]]
+\* the namespace the project under validation lives in (None when the project has no namespaces)
+WarnNs == IF "NS" \in DOMAIN IOEnv THEN IOEnv.NS ELSE None
+Warn(kind, l, p) == [kind |-> kind, locale |-> l, at |-> [ns |-> WarnNs, path |-> p]]
 
 \* the diagnostics of one non-default locale; `silent`: it has an inherits entry (or the
 \* suppress_key_warnings build), `nosurplus`: the suppress_key_warnings build
